@@ -54,6 +54,12 @@ func main() {
 			os.Exit(2)
 		}
 		c := &Ctx{Prog: p}
+		if len(os.Args) > 3 && os.Args[3] == "-" {
+			for _, l := range plainPathSignature(c, os.Args[2]) {
+				fmt.Println(l)
+			}
+			return
+		}
 		if len(os.Args) > 3 {
 			for _, l := range pathSignature(c, os.Args[2], os.Args[3]) {
 				fmt.Println(l)
